@@ -1,1 +1,61 @@
-fn main() { println!("ok"); }
+mod common;
+mod gen1;
+mod l1;
+mod run1;
+mod vals;
+
+use common::BatchArgs;
+use simcore::report::Replay;
+use std::collections::BTreeSet;
+
+fn arg(args: &[String], name: &str) -> Option<String> {
+    args.iter().position(|a| a == name).and_then(|i| args.get(i + 1)).cloned()
+}
+
+fn main() {
+    // a panicking cache operation is an observation (C16), not a crash of the simulator
+    std::panic::set_hook(Box::new(|_| {}));
+    let args: Vec<String> = std::env::args().collect();
+    let code = match args.get(1).map(|s| s.as_str()) {
+        Some("run") => {
+            let known: BTreeSet<String> = match arg(&args, "--known") {
+                Some(f) => std::fs::read_to_string(f).unwrap_or_default().lines().map(|l| l.to_string()).collect(),
+                None => BTreeSet::new(),
+            };
+            let ba = BatchArgs {
+                prop: arg(&args, "--prop").expect("--prop"),
+                engine: arg(&args, "--engine").expect("--engine"),
+                seed: arg(&args, "--seed").map_or(1, |s| s.parse().expect("seed")),
+                start: arg(&args, "--start").map_or(0, |s| s.parse().expect("start")),
+                runs: arg(&args, "--runs").map_or(1000, |s| s.parse().expect("runs")),
+                replay_dir: arg(&args, "--replay-dir").unwrap_or_else(|| "/verif/replays".into()).into(),
+                known,
+                time_limit_s: arg(&args, "--time-limit").map_or(0.0, |s| s.parse().expect("time")),
+                log_digests: args.iter().any(|a| a == "--digests"),
+            };
+            match ba.engine.as_str() {
+                "l1" => run1::run_batch(ba),
+                e => {
+                    eprintln!("unknown engine {e}");
+                    2
+                }
+            }
+        }
+        Some("replay") => {
+            let path = args.get(2).expect("replay file");
+            let rp: Replay = serde_json::from_str(&std::fs::read_to_string(path).expect("read replay")).expect("parse replay");
+            match rp.engine.as_str() {
+                "l1" => run1::replay(&rp, path),
+                e => {
+                    eprintln!("unknown engine {e}");
+                    2
+                }
+            }
+        }
+        _ => {
+            eprintln!("usage: simreal run --prop C04 --engine l1 --seed N --start A --runs B | simreal replay FILE");
+            2
+        }
+    };
+    std::process::exit(code);
+}
